@@ -26,6 +26,17 @@ Theorem C16_untouched :
 Proof. exact untouched. Qed.
 Print Assumptions C16_untouched.
 
+(* the validity region of the reparameterised model is the base model's region expressed in the new
+   parameters: VALID, as generated, evaluates the base model's validity expression on the base parameters
+   the translation produces (replaced ones) or the caller supplies (untouched ones) *)
+Theorem C16_valid :
+  forall (V : Type) (interp : string -> list V -> V) call_pars base_pars (rho glob : string -> V) assigns valid,
+  wf V call_pars base_pars assigns = true ->
+  generated_valid V interp call_pars base_pars assigns rho glob valid =
+  eval V interp (base_env V interp call_pars base_pars rho glob assigns) valid.
+Proof. exact valid_composition. Qed.
+Print Assumptions C16_valid.
+
 (* derived table: the new parameters replace the first removed base parameter as a
    block; all other base parameters stay, in their original order *)
 Theorem C16_table_order :
